@@ -22,6 +22,7 @@
    No index_enabled hypothesis: a time-ordered read that ends with io.EOF was index-based (when the
    index is not usable Reader.Messages fails for the two time orders).
    Full: C03_e2e_logtime, C03_e2e_reverse, C03_e2e_orders (both, by direction), C03_e2e_deterministic. *)
+From Mcap Require ConstsTie LayoutTie DecisionTieR. (* regenerated ties to /repo's source that this property's model relies on *)
 From Coq Require Import List NArith ZArith Bool Permutation Sorted.
 From Coq.Strings Require Import Byte.
 From Mcap Require Import Bytes GoSem Crc32 Records RecordsFacts Writer WriterFactsC Lexer LexSpec LexerFactsB
